@@ -189,7 +189,7 @@ type Option struct {
 }
 
 func (o *Option) Len() uint16 {
-	return uint16(o.Length + 2)
+	return uint16(o.Length) + 2
 }
 
 func (o *Option) MarshalBinary() (data []byte, err error) {
@@ -204,6 +204,9 @@ func (o *Option) MarshalBinary() (data []byte, err error) {
 }
 
 func (o *Option) UnmarshalBinary(data []byte) error {
+	if len(data) < 2 {
+		return errors.New("The []byte is too short to unmarshal an Option header.")
+	}
 	n := 0
 	o.Type = data[n]
 	n += 1
